@@ -426,12 +426,13 @@ func (fr *frame) applyContract(ct *FuncContract, f *ssa.Function, sig *types.Sig
 			env.vars["result"] = cv
 		}
 	}
-	if ct.HeapFun && f != nil && sig.Results().Len() == 1 {
-		// the result is the heap function applied to the arguments in the state of the call
+	if ct.HeapFun {
+		// each result is the heap function applied to the arguments in the state of the call
+		_, pnames, _, herr := fc.e.hfSig(ct)
 		var cargs []CVal
-		okArgs := true
-		for _, p := range f.Params {
-			cv, ok := env.vars[p.Name()]
+		okArgs := herr == nil
+		for _, pn := range pnames {
+			cv, ok := env.vars[pn]
 			if !ok {
 				okArgs = false
 				break
@@ -439,13 +440,22 @@ func (fr *frame) applyContract(ct *FuncContract, f *ssa.Function, sig *types.Sig
 			cargs = append(cargs, cv)
 		}
 		if okArgs {
-			if ht, err := fc.heapFunTerm(ct, cargs, oldSt); err == nil {
-				if rt, ok := rvals[0].(Term); ok {
-					fc.factIf(reach, eq(rt.S, ht.S))
+			for k := 0; k < sig.Results().Len() && k < len(rvals); k++ {
+				ht, err := fc.heapFunTerm(ct, k, cargs, oldSt)
+				if err != nil {
+					fc.unsupported("%v", err)
+					break
 				}
-			} else {
-				fc.unsupported("%v", err)
+				if rt, ok := rvals[k].(Term); ok {
+					if isErrorType(sig.Results().At(k).Type()) {
+						fc.factIf(reach, eq(eq(rt.S, "anil"), ht.S))
+					} else {
+						fc.factIf(reach, eq(rt.S, ht.S))
+					}
+				}
 			}
+		} else if herr != nil {
+			fc.unsupported("%v", herr)
 		}
 	}
 	for _, gs := range ct.Ghostset {
@@ -513,8 +523,8 @@ func (fr *frame) inline(f *ssa.Function, args, bindings []Val, st *State, reach 
 	}
 	sub := fc.newFrame(f, false)
 	sub.old = fr.old
-	if len(sub.loops) > 0 {
-		fc.unsupported("inlined function %s contains a loop", fnKey(f))
+	if len(sub.loops) > 0 && (fc.c == nil || fc.c.InlineLoops[f.Name()] == nil) {
+		fc.unsupported("inlined function %s contains a loop (the caller's contract gives no `loop %s:<n>` invariants)", fnKey(f), f.Name())
 		return fr.unknownCall(fnKey(f), f.Signature, st, reach, pos)
 	}
 	for i, p := range f.Params {
